@@ -202,6 +202,10 @@ func mkReader(kind string, data []byte) io.Reader {
 	case "fail":
 		return &failing{b: data}
 	}
+	if sc, ok := namedScript(kind, len(data)); ok { // round 9: scripted behaviours
+		r, _ := gen.C09NewScriptReader(data, sc)
+		return r
+	}
 	return bytes.NewReader(data)
 }
 
@@ -317,8 +321,10 @@ func checkReuse(ctx *pbt.Ctx, c Reuse) error {
 		switch s.Reader {
 		case "", "onebyte", "dataerr", "chunk", "fail":
 		default:
-			ctx.Discard("invalid case: reader")
-			return nil
+			if _, ok := namedScript(s.Reader, 0); !ok {
+				ctx.Discard("invalid case: reader")
+				return nil
+			}
 		}
 		inputs[i] = s.input()
 		key = append(key, []byte(s.Entry+"/"+s.Reader), inputs[i])
@@ -460,7 +466,7 @@ func genReuse(t *rapid.T) Reuse {
 			var d []byte
 			d, s.Note = genBinStep(t, s.Entry)
 			s.Data = d
-			s.Reader = rapid.SampledFrom([]string{"", "", "", "onebyte", "dataerr", "chunk", "fail"}).Draw(t, "reader")
+			s.Reader = rapid.SampledFrom(append([]string{"", "", "", "", "onebyte", "dataerr", "chunk", "fail"}, namedScriptKinds...)).Draw(t, "reader")
 		}
 		if rapid.IntRange(0, 24).Draw(t, "bigcut") == 0 && fam != "varint" {
 			// a large input that ends early
